@@ -125,6 +125,23 @@ def gen_edge(rng, material, small=False):
                        {"stiff": rng.choice(["rigid", num_opt(rng)]), "tubes": tubes[2:]}]}
 
 
+def gen_cutback(rng):
+    """connected creep receiver in which one hot, pressurised tube needs adaptive cut-backs of its structural steps
+    (Newton budget 4) and the others do not"""
+    d = dict(gen_edge(rng, "creep", small=True), name="edge-cutback", structural_miter=3, no_damage=True)
+    tubes = [t for p in d["panels"] for t in p["tubes"]]
+    # load levels found by probing: three sub-increments fail and are cut back, the receiver still solves
+    tubes[0].update(flux=0.8, p=2.0, dim=1)
+    for t in tubes[1:]:
+        t.update(flux=0.4, p=2.0, dim=1)
+    for t in tubes:
+        t.update(ro=R_OUT, th=THICK, Tf=800.0, nr=4)      # nominal gauge
+    # stiff connections: with soft ones the system Newton iteration of this heavily loaded receiver does not converge
+    d["recv"] = "rigid"
+    d["panels"][0]["stiff"], d["panels"][1]["stiff"] = "rigid", 1.0e5
+    return d
+
+
 def gen_sub(rng, material, name="sub", small=False):
     """everything disconnected -> one sub-problem per tube -> sub-problems in a pool.  The FIRST
     sub-problem is by far the most expensive (2-D, fine mesh), so with >= 2 workers the later ones
@@ -397,6 +414,10 @@ def _run_pipeline(desc, cfg, reference=False):
         params["progress_bars"] = cfg["progress"]
         params["page_results"] = cfg["page"]
         params["system"]["atol"] = 1.0e-4
+        if desc.get("structural_miter"):
+            # a small (legal) Newton budget of the tube solver: some steps then need the adaptive cut-back, so what a
+            # tube solve costs -- and anything remembered about it -- differs from tube to tube
+            params["structural"]["miter"] = int(desc["structural_miter"])
         if kind == "thermohydraulic":
             params["thermal"]["miter"] = 200
             tsolver = thermal.ThermohydraulicsThermalSolver(params["thermal"])
@@ -413,6 +434,8 @@ def _run_pipeline(desc, cfg, reference=False):
         mgr = managers.SolutionManager(model, tsolver, m["th"], m["fl"], ssolver, m["de"], m["da"], sysolver,
                                        dmodel, pset=params)
         stages = ["thermal"] if kind == "thermohydraulic" else ["thermal", "structural", "damage"]
+        if desc.get("no_damage"):
+            stages = ["thermal", "structural"]
         failed = False
         for st in stages:
             if failed:
@@ -697,7 +720,7 @@ def configs(ctx, kind, name):
         return d
     if ctx.quick():
         if kind == "creep":
-            return [c(1), c(2)] + ([c(4)] if name != "edge" else [])
+            return [c(1), c(2)] + ([c(4)] if not name.startswith("edge") else [])
         if kind == "thermohydraulic":
             return [c(1), c(2), c(1, False, True)]
         if kind == "ceramic":
@@ -717,7 +740,8 @@ def receivers(ctx):
     rng = ctx.rng
     rs = [gen_edge(rng, "elastic"), gen_sub(rng, "elastic"), gen_mixed(rng, "elastic"),
           gen_edge(rng, "creep", small=ctx.quick()), gen_sub(rng, "creep", small=ctx.quick()),
-          gen_sub(rng, "ceramic", name="ceramic"), gen_flow(rng)]
+          gen_sub(rng, "ceramic", name="ceramic"), gen_flow(rng),
+          gen_cutback(rng)]
     if not ctx.quick():
         rs += [gen_mixed(rng, "elastic") for _ in range(4)] + [
             gen_mixed(rng, "creep"), dict(gen_edge(rng, "ceramic"), dmodel="PIAModel"),
